@@ -201,7 +201,7 @@ def validate_tag(repo: Repo, chk: Check) -> None:
         ok = isinstance(res, STuple) and len(res.items) == 2 and isinstance(res.items[0], SView) and res.items[0].src == src and res.items[0].lo == tl and res.items[0].hi == tl + dl and res.items[1] == tl + dl
         chk.ob("O1", site, ok, "(content, consumed) = (data[TL : TL + DL], TL + DL)" if ok else f"_validate_tag returns {res!r}; expected (data[{tl!r} : {tl + dl!r}], {tl + dl!r})")
         end = Lin.atom(("end", src))
-        guard = any(c.info.get("cmp") is not None and ((c.info["cmp"][0] == "lt" and c.info["cmp"][1] == end - tl and c.info["cmp"][2] == dl and pol is False) or (c.info["cmp"][0] == "ge" and c.info["cmp"][1] == end - tl and c.info["cmp"][2] == dl and pol)) for c, pol in st.conds)
+        guard = _implies_ge0(st.conds, end - tl - dl)
         chk.ob("O1", site, guard, "returned only when all content octets are present (else NotEnougData)" if guard else "no test that DL octets follow the header precedes the return: a truncated value is handed on as if complete")
         tagcmp = any(("!=" in c.desc and pol is False) or ("==" in c.desc and pol) for c, pol in st.conds)
         chk.ob("O1", site, tagcmp, "only for the expected tag")
@@ -299,6 +299,27 @@ def header_reader(repo: Repo, chk: Check) -> None:
         return  # no accumulation loop: byte order and signedness were decided on the single read above
     okacc, why = big_endian_accumulation(repo, f)
     chk.ob("O2", Site.of(f, construct="big-endian length accumulation"), okacc, why)
+
+
+def _implies_ge0(conds: t.Any, goal: Lin) -> bool:
+    """Some comparison decided on the path states `goal >= 0` (whatever side its terms were written on, whichever of
+    <, <=, >, >= was used and whichever branch was taken), or something stronger by a constant."""
+    for c, pol in _implied(conds):
+        cmp_ = getattr(c, "info", {}).get("cmp")
+        if not cmp_ or cmp_[0] not in ("lt", "le", "gt", "ge"):
+            continue
+        op, x, y = cmp_
+        if op in ("gt", "ge"):
+            op, x, y = ("lt" if op == "gt" else "le"), y, x
+        # now  x < y  /  x <= y  with polarity pol
+        if op == "lt":
+            fact = (y - x - Lin(1)) if pol else (x - y)
+        else:
+            fact = (y - x) if pol else (x - y - Lin(1))
+        d = goal - fact
+        if d.is_const() and d.const >= 0:
+            return True
+    return False
 
 
 def _same_truth_on_byte(a: t.Any, b: t.Any, atom: t.Any) -> bool:
